@@ -6,6 +6,7 @@ jobs=${1:-6}
 one() {
   tag=$1
   prop=$(python3 -c "import json;print(json.load(open('/verif/seeded/$tag/meta.json'))['property'])")
+  tier=quick; grep -q "THOROUGH" /verif/seeded/$tag/meta.json && tier=thorough   # a seed only the thorough tier catches
   wt=/tmp/wt/reg-$tag; vs=/tmp/vs/reg-$tag
   rm -rf $wt $vs; git -C /repo worktree add -q --detach $wt HEAD 2>/dev/null || { echo "$tag $prop worktree-failed"; return; }
   if ! git -C $wt apply /verif/seeded/$tag/patch.diff 2>/dev/null; then
@@ -13,10 +14,10 @@ one() {
   fi
   mkdir -p $vs; rsync -a --exclude .git --exclude /build --exclude '/replays/*' --exclude /harness/bin --exclude /seeded --exclude /neutral /verif/ $vs/ 2>/dev/null
   sed -i "s#^replace github.com/zen-eth/shisui => /repo#replace github.com/zen-eth/shisui => $wt#" $vs/harness/go.mod
-  ( cd $vs && VERIF_REPO=$wt ./check $prop --tier quick > /tmp/reg_$tag.out 2>&1 ); rc=$?
+  ( cd $vs && VERIF_REPO=$wt ./check $prop --tier $tier > /tmp/reg_$tag.out 2>&1 ); rc=$?
   v=$(grep -c "^VIOLATION" /tmp/reg_$tag.out); nf=$(grep -c "no-failing-input-found" /tmp/reg_$tag.out)
-  cl=$(grep -o "clause=[a-zA-Z_@.:0-9]*" $vs/replays/$prop-quick-1.txt 2>/dev/null | sort | uniq -c | sort -rn | head -1 | awk '{print $2}')
-  echo "$tag $prop rc=$rc violation=$v nofailinginput=$nf $cl"
+  cl=$(grep -o "clause=[a-zA-Z_@.:0-9]*" $vs/replays/$prop-$tier-1.txt 2>/dev/null | sort | uniq -c | sort -rn | head -1 | awk '{print $2}')
+  echo "$tag $prop $tier rc=$rc violation=$v nofailinginput=$nf $cl"
   rm -rf $vs; git -C /repo worktree remove --force $wt
 }
 export -f one
